@@ -502,6 +502,18 @@ def analyse(fn, call_const, uses_context, what):
             kinds['hit'].append(bp)
         else:
             kinds['miss'].append(bp)
+    # a request that starts a generator on a path that never looked the request up, although other
+    # paths do: the lookup is skipped under some condition, and that request is evaluated again
+    skipped = [bp for bp in kinds['other'] if classify(bp)[0] and gen_creations(bp)
+               and any(kinds[k] for k in ('hit', 'miss'))]
+    if skipped:
+        cond = ' and '.join(('' if t[2] else 'not ') + P.tfmt(t[1]) for t in skipped[0].tests()
+                            if not (isinstance(t[1], tuple) and tag in P.subterms(t[1]) and CALLC in P.subterms(t[1])))
+        bad.append(('C07-memo-lookup', f'{what}: a generator is started for a request without the memo having been '
+                                       f'consulted when {cond or "(always)"}: a request made under that condition is '
+                                       f'evaluated again although its result may be stored'))
+        kinds['other'] = [bp for bp in kinds['other'] if bp not in skipped]
+        kinds['miss'] += skipped
     if kinds['other']:
         ex = kinds['other'][0].describe()[:300]
         if not any(k for k in ('hit', 'miss') if kinds[k]):
